@@ -1112,7 +1112,11 @@ func (g *gen) val() int {
 
 func (g *gen) validText() []int {
 	var toks []int
-	for i, n := 0, 1+g.rng.Intn(5); i < n; i++ {
+	n := 1 + g.rng.Intn(5)
+	if g.rng.Intn(10) == 0 {
+		n = 28 + g.rng.Intn(24) // a long list (unsorted, with repetitions): whatever a parser does differently for those
+	}
+	for i := 0; i < n; i++ {
 		if i > 0 {
 			toks = append(toks, tokComma)
 		}
